@@ -53,6 +53,18 @@ for it in range(N):
         fails.append(fl)
     evals += 1; distinct.add(k)
     if it < 2: samples.append(dict(config=list(map(int, k)), final=float(t.strategy.value) if 't' in dir() else None))
+# ---- a ticker quoted exactly 0.0 before its listing (a placeholder) is well-formed input as long as nothing is opened at that quote: the default
+# screens of the selection algos keep it out and the run completes with finite numbers
+for zi in range(3):
+    nz = int(rs2.randint(10, 20)); dz = mkdata(nz, list("abcd")); kz = int(rs2.randint(3, 7)); dz.iloc[:kz, 3] = 0.0
+    selz = [A.SelectHasData(lookback=pd.DateOffset(days=5), min_count=2), A.SelectAll(), A.SelectThese(list("abcd"))][zi]
+    evals += 1
+    try:
+        tz = bt.Backtest(Strategy("z", [A.RunDaily(), selz, A.WeighEqually(), A.Rebalance()]), dz, integer_positions=bool(zi % 2), progress_bar=False); tz.run()
+        if not (np.all(np.isfinite(tz.strategy.prices.to_numpy())) and finite_frame(tz.positions) and finite_frame(tz.security_weights)): fails.append(dict(clause="non-finite-result", config="zero placeholder before listing", selection=type(selz).__name__))
+        elif float(tz.positions["d"].iloc[: kz + 1].abs().sum()) != 0.0: fails.append(dict(clause="position-opened-at-a-zero-quote", selection=type(selz).__name__, positions=[float(x) for x in tz.positions["d"].iloc[: kz + 1]]))
+    except Exception as e:
+        fails.append(dict(clause="well-formed-run-raised", config="zero placeholder before listing", selection=type(selz).__name__, error=repr(e)[:300]))
 # ---- ill-formed classes must raise
 def expect_raise(name, fn):
     global evals
